@@ -82,6 +82,24 @@ VarDoc(k) == [defsList |-> << <<"T", [oneOf |-> [i \in Idx |->
 VarInsts(k) == [i \in Idx |-> JObj(<<Names[i]>>, <<PayloadVal(k)>>)]
 VariantCtx == mode = "kw" \/ (mode = "single" /\ Len(n1) <= 1) \/ (mode = "pair" /\ Len(n1) > 1 /\ Len(n2) > 1)
 
+(* names as property names for each kind of member (the serde attributes of a property are assembled
+   per kind: optional scalar, optional map typed / untyped, optional array, explicit default) *)
+PropKinds == <<"opt", "optmap", "optanymap", "optvec", "dflt">>
+PropKindSchema(k) == CASE k = "opt" -> SInt
+                       [] k = "optmap" -> SMap(SInt)
+                       [] k = "optanymap" -> SMap(STrue)
+                       [] k = "optvec" -> SArr(SInt)
+                       [] k = "dflt" -> With(SInt, "default", JInt(5))
+PropKindVal(k) == CASE k = "opt" -> JInt(3)
+                    [] k = "optmap" -> JObj1("k", JInt(1))
+                    [] k = "optanymap" -> JObj1("k", JS(<<"v">>))
+                    [] k = "optvec" -> JArr(<<JInt(1)>>)
+                    [] k = "dflt" -> JInt(6)
+PropKindDoc(k) == [defsList |-> << <<"T", [type |-> "object",
+                                          propsList |-> [i \in Idx |-> <<Names[i], PropKindSchema(k)>>],
+                                          required |-> << >>]>> >>]
+PropKindInst(k) == JObj(Names, [i \in Idx |-> PropKindVal(k)])
+
 Case(ctx, doc, insts) ==
     [fam |-> "C08", ctx |-> ctx, mode |-> mode, names |-> Names,
      settings |-> [builder |-> TRUE],
@@ -94,4 +112,6 @@ Emit == Distinct =>
     /\ PrintT(<<"CASE", ToJson(Case("def", DefDoc, <<DefInst>>))>>)
     /\ (VariantCtx => \A k \in {"int", "tuple1", "tuple2", "struct"} :
             PrintT(<<"CASE", ToJson(Case("var-" \o k, VarDoc(k), VarInsts(k)))>>))
+    /\ (VariantCtx => \A i \in DOMAIN PropKinds :
+            PrintT(<<"CASE", ToJson(Case("prop-" \o PropKinds[i], PropKindDoc(PropKinds[i]), <<PropKindInst(PropKinds[i])>>))>>))
 =============================================================================
